@@ -13,6 +13,21 @@ CHECKS = {
  "C02": ("bounded-exhaustive program enumeration + stateless DFS over environment answers, comparison of complete marked event logs (which effect ran inside which consumer call)",
          "Same exploration as C01, but the oracle is equality of the whole marked log: no event between the call of the generator function and the first MoveNext, inside each MoveNext window exactly the reference's condition evaluations, effects and the evaluation of the yielded expression in source order, nothing after the last advance, and two extra advances after exhaustion run nothing. Because the code is sequential, the full log decides every consumer truncation point at once.",
          PROG_NOTE, "DESIGN.md 1.2, section 2 C02"),
+ "C03": ("bounded-exhaustive program enumeration (VAR grammar: declare/shadow/update/capture/call/read of a local under every scope-introducing construct) + DFS over answers, complete marked logs vs Go-on-coroutine",
+         "Every program of the VAR grammar up to size 3 (quick) / 3 plus a 12-kind sub-alphabet at size 4 (thorough), plus a corpus closed under reduction: yields and effects of x, shadowing declarations, updates, closures that mutate x, closures that read x, under if-init, loops, for with shadowing init, switch-init, type-switch binding, blocks and range := / = scopes; values of x flow into yields and effects, so a reference to the wrong variable, a lost update or a closure bound to the wrong variable changes the log. A second configuration compiles the loop-variable-capturing subset in a go 1.22 module.",
+         PROG_NOTE, "DESIGN.md section 2 C03"),
+ "C04": ("bounded-exhaustive product enumeration kind x variable form x token x placement x operand x mutation script x collection value x break/continue, native range statement as reference",
+         "Product family over range kinds slice/array/string/map/map[any]any/chan/int (int in a go 1.22 module), variable forms, := and =, placements (yielding body, non-yielding loop inside a generator, loop inside a closure nested in a generator, nested in another yielding range), operand as variable or as call result whose single evaluation is logged, mutation scripts applied at the first iteration (append, write ahead/behind, reslice, set nil, delete entries not yet produced), collection values (nil, empty, invalid and truncated UTF-8, nil interface keys/values, zero channel values, n <= 0) and oracle-guarded break/continue. Quick: every configuration within distance 2 of each kind's baseline; thorough: the full product. The reference is the same text with Go's own range statement.",
+         PROG_NOTE + " Maps with several entries log only order-independent observations.", "DESIGN.md section 2 C04"),
+ "C05": ("bounded-exhaustive program enumeration (core control-flow grammar + delegation atoms at every statement position) + DFS over answers + injected panics, complete marked logs",
+         "Every program of the core grammar extended with delegation (to an empty, a 2-element, an infinite, a choice-driven, a recursive depth-3, a tree-walking, a hand-advanced, an exhausted and a twice-delegated iterator; also in for-init, for-post and switch-init position) up to size 2 (quick) / 3 (thorough) plus a corpus; every delegation argument is wrapped so that its single evaluation is logged; in the reference YieldFrom is literally the pull loop, so delegate events must fall into the consumer window that pulled them and the statement after YieldFrom must run in the window that found the delegate exhausted.",
+         PROG_NOTE, "DESIGN.md section 2 C05"),
+ "C06": ("bounded-exhaustive product enumeration holder x loop form x control x body x wrapper of consumer functions, explicit pull loop as reference",
+         "Product family over where the iterator lives (local, call result, struct field, pointer field of slice, map value, slice element, closure result, generic function generator, method generator, interface + type assertion, closure parameter), how it is consumed (range :=, range =, pull, pull-then-range, range-break-then-pull, nested range, generator of iterators, two iterators zipped), control (break/continue/return under a choice point), body (log / re-declare the loop variable) and wrapper (plain function, inside a generator that re-yields, inside a closure). Generators log every resume, so pulling one element too many is visible. Quick: distance <= 2 from the baseline; thorough: full product. The output must also build, which decides the consistent replacement of the iterator type.",
+         PROG_NOTE, "DESIGN.md section 2 C06"),
+ "C07": ("differential bounded-exhaustive exploration: unoptimised intermediate package vs final package of the same compile, on every enumerated program, answer vector and injected panic",
+         "For every program of the control-flow corpus (and the optimiser-directed families) the verif hook keeps the unoptimised stage-1 package; it is linked next to the final output of the real rewriter.Compile (the hook's own final output must be byte-identical to it) and both are explored with the same answer vectors and injected panics; their marked logs must be identical, and the final package must build whenever the unoptimised one does. No hand-written expectation is involved.",
+         PROG_NOTE + " The unused API import of the unoptimised stage is removed before building it.", "DESIGN.md section 2 C07"),
  "C11": ("bounded-exhaustive program enumeration through the real compiler entry point; per-program verdict accepted / panics / output does not build",
          "Every type-correct program of the control-flow grammar at the tier's sizes is compiled in batches by the unmodified rewriter.Compile from a non-test binary under a 10 minute watchdog; a panic is isolated to the offending program with the verif hook (per-file recover) and the generated package is built with go build -gcflags=-e without the co tag; every rejected or unbuildable program is reduced to a root and reported.",
          "Trusted: the generator emits only constructs of the README's supported table; go build as type checker. Import/file configurations and the other families are added as those checks land.", "DESIGN.md 1.3, section 2 C11"),
